@@ -16,6 +16,7 @@ from hypothesis import strategies as st
 
 from traits.api import (HasTraits, TraitType, TraitError, List, Dict, Set, Str, Int, Any, Union, Either, Trait, Property,
                         Supports, Instance, cached_property, push_exception_handler, pop_exception_handler)
+from traits.api import PrototypedFrom as T_PrototypedFrom
 from traits.adaptation.api import AdaptationManager, set_global_adaptation_manager, get_global_adaptation_manager
 from traits.observation.api import push_exception_handler as opush, pop_exception_handler as opop
 
@@ -118,6 +119,9 @@ def build():
         t = Int
         tl = List(Int)
         q = Property
+        # a prototyped attribute: its values are validated by the prototype's trait (a ticking user validator)
+        proto = Instance(Partner)
+        pe = T_PrototypedFrom("proto", "e")
 
         def _dyn_default(self):
             tick("dyn_default")
@@ -157,6 +161,8 @@ def build():
     o.on_trait_change(lambda: (tick("items_handler"), LOG.append("items")), "le_items")
     o.observe(lambda ev: (tick("obs_items_handler"), LOG.append("obs_items")), "le.items")
     o.on_trait_change(lambda: LOG.append("pdep"), "pdep")
+    o.proto = Partner()
+    o.on_trait_change(lambda: LOG.append("pe"), "pe")
     partner = Partner()
     o.sync_trait("t", partner, "e", mutual=True)
     o.sync_trait("tl", partner, "le", mutual=True)
@@ -183,6 +189,10 @@ def snapshot(o):
     p = o.__dict__["_partner"]
     d["partner.e"] = p.__dict__.get("e", 0)
     d["partner.le"] = list(p.__dict__.get("le", []))
+    d["pe-local"] = o.__dict__.get("pe", "<unset>")
+    d["proto.e"] = o.proto.__dict__.get("e", 0)
+    d["pe-listener"] = repr(sorted((o.__dict__.get("__listener_traits__") or {}).keys())) if "__listener_traits__" in o.__dict__ else \
+        repr(sorted(k_ for k_ in (o.__dict__.get("__traits_listener__") or {})))
     d["notifiers"] = tuple(len(o._trait(n, 0)._notifiers(False) or []) for n in ("e", "le", "t", "tl", "dynv"))
     return d
 
@@ -211,6 +221,9 @@ OPS = {
     "del dyn": lambda o: delattr(o, "dyn"),
     "read p": lambda o: o.p,
     "read pdep": lambda o: o.pdep,
+    "set pe": lambda o: setattr(o, "pe", 4),
+    "set pe bad": lambda o: setattr(o, "pe", 3),
+    "del pe": lambda o: delattr(o, "pe"),
     "q set": lambda o: setattr(o, "q", 3),
     "q get": lambda o: o.q,
     "sup adapt": lambda o: setattr(o, "sup", IA()),
@@ -231,6 +244,7 @@ PREFIX = {
     "e=2": lambda o: setattr(o, "e", 2), "le=[2,4]": lambda o: setattr(o, "le", [2, 4]), "de.update": lambda o: o.de.update({"a": 2}),
     "se={2}": lambda o: o.se.update([2]), "read p": lambda o: o.p, "read pdep": lambda o: o.pdep, "read dyn": lambda o: o.dyn, "t=2": lambda o: setattr(o, "t", 2),
     "dynv=4": lambda o: setattr(o, "dynv", 4), "dynv=6": lambda o: setattr(o, "dynv", 6), "dyn=7": lambda o: setattr(o, "dyn", 7),
+    "pe=2": lambda o: setattr(o, "pe", 2), "proto.e=2": lambda o: setattr(o.proto, "e", 2),
     "tl=[2]": lambda o: setattr(o, "tl", [2]), "q=1": lambda o: setattr(o, "q", 1), "base=2": lambda o: setattr(o, "base", 2),
 }
 FOLLOW = {
@@ -239,9 +253,11 @@ FOLLOW = {
     "base=5": lambda o: setattr(o, "base", 5), "partner.e=8": lambda o: setattr(o.__dict__["_partner"], "e", 8), "t=6": lambda o: setattr(o, "t", 6),
     "partner.le.append": lambda o: o.__dict__["_partner"].le.append(4), "tl.append": lambda o: o.tl.append(8), "read t": lambda o: o.t,
     "read tl": lambda o: list(o.tl), "e=bad": lambda o: setattr(o, "e", 5),
+    "proto.e=6": lambda o: setattr(o.proto, "e", 6), "proto.e=8": lambda o: setattr(o.proto, "e", 8), "read pe": lambda o: o.pe,
+    "pe=10": lambda o: setattr(o, "pe", 10), "del pe": lambda o: delattr(o, "pe"),
 }
 PROBE = ("read p", "read pdep", "read dyn", "read dynv", "e=10", "read p", "read pdep", "e=6", "read p", "read pdep",
-         "partner.e=8", "read t", "partner.le.append", "read tl")
+         "partner.e=8", "read t", "partner.le.append", "read tl", "read pe", "proto.e=6", "read pe", "proto.e=8", "read pe")
 HANDLER_SITES = {"static_handler": "static", "otc_handler": "otc", "obs_handler": "obs", "items_handler": "items",
                  "obs_items_handler": "obs_items"}
 SYNC_OPS = ("sync scalar", "sync scalar bad", "sync list")
